@@ -480,6 +480,9 @@ def run(ck, facts, tier):
     rule_silent_error_nodes(ck, facts)
     rule_assignment_protocol(ck, facts)
     chainwalk.run(ck, facts, "C04.chain-walk", ["mimium_lang"])
+    from ..rules import rewrite
+
+    rewrite.run(ck, facts, "C04.rewrite-complete", belief.rewriting_passes())
     from . import c03
 
     c03.rule_admission(ck, facts)
